@@ -1,11 +1,34 @@
 /-
   C07 — buffered channel configuration reaches the device exactly at write time.
-  Property theorems only (helper lemmas in Lemmas/Config.lean).
+  Property theorems only (helper lemmas in Lemmas/Config.lean, Lemmas/ConfigExt.lean).
   Histories are arbitrary lists of `Config.Op`; the device reacts to the bytes the client emits.
+
+  How the dimensions of the property's quantifier are covered:
+  * histories, channel counts (0..255), initial device state, the four flag combinations: universally quantified in
+    every theorem (`ops`, `d0` with `WFDev`, `flags`).
+  * every rx padding: `padding_invisible`, `write_syncs_padded`, `padded_request_same` — the device stands behind its
+    request dispatcher and receives every write aligned to an arbitrary padding (`Config.runP`, `Config.devReact`);
+    composition of C17 `aligned_same` with the dispatcher, the callback table and the C05 decoders.
+  * stream already running at connect time: the histories start from `Client.init d0 flags`.  `connect_gives_init`
+    states that this is exactly what a connect produces from a fresh handler, whether or not the device was left
+    streaming, with the device's channel configuration untouched and its stream stopped (the stop request connect sends
+    first; C09 `connect_stops_stream` is the same fact at the level of C09's histories).  From there on the device does
+    not stream unless the client starts it.  Stream frames that arrive *during* the exchange (stream started by the
+    client) travel to a separate queue in the receive thread and are outside the model: that dimension is covered by
+    K/O only (mode letters `s`, `r` of the `cfgx run` cases: a stream frame between every set request and its ACK).
+  * the public wrappers `NxscopeHandler.ch_enable(chans, writenow=False)` …: `Config.Call` / `runCalls` — a setter
+    followed, if `writenow` and the setter did not raise, by a write (`calls_silent`, `writenow_syncs`,
+    `write_syncs_calls`, `reported_matches_device_calls`); that the wrappers are those two statements with the default
+    `False` is a source pin (`PinsC07`) and K (wrappers called without the argument).
+  * channel ids are Python indices: −n..−1 count from the end, `True`/`False` are 1/0 (`Config.normId`, `IOp`);
+    `ids_nonneg_unchanged`: for ids ≥ 0 nothing differs from `Config.Op`.
 -/
 import NxsModel.Gen.CfgShape
 import NxsModel.Config
+import NxsModel.ConfigExt
+import NxsModel.Lifecycle
 import NxsModel.Lemmas.Config
+import NxsModel.Lemmas.ConfigExt
 namespace Nxs.C07
 open Nxs Nxs.Config
 
@@ -38,7 +61,13 @@ private theorem AllAck.ops {ops : List Op} (h : AllAck ops) : ∀ op ∈ ops, Ac
     · cases op' <;> first | trivial | exact ⟨h.1, h.2.1⟩
     · exact ih hr op' hm
 
-/-- no call other than a write sends anything or changes anything at the device -/
+/-- no call other than a write sends anything or changes anything at the device.
+    NOTE: over `Config.step` this is immediate from the definition (every setter branch returns `d` and an empty
+    `sent`): the theorem restates the model.  Its content for the real code lies in the tie — the source pins of the
+    setters and of the `NxscopeHandler` wrappers (`Props/PinsC07.lean`: each of them is textually the function whose
+    only effect is on the requested vector, with `writenow` defaulting to `False`) and the correspondence check, which
+    calls every setter and every wrapper (without its `writenow` argument) and compares the bytes written and the
+    reference device's state after each call. -/
 theorem setters_silent (c : Client) (d : Device) (op : Op) (h : isWrite op = false) :
     (step c d op).2.1 = d ∧ (step c d op).2.2.sent = [] :=
   step_silent c d op (fun a b e => by rw [e] at h; exact Bool.noConfusion h)
@@ -99,5 +128,200 @@ example : (after ⟨[], []⟩ 3 [.enableAll, .write .ack .ack, .defaultCfg, .wri
     ((after ⟨[], []⟩ 3 [.enableAll, .write .ack .ack, .defaultCfg, .write .ack .ack]).2.2.map
       fun o => (o.sent, o.err)) = [([], none), ([], none), ([], none), ([], none)] := by
   decide +kernel
+
+/-! ## C07 additions: rx padding, stream running at connect time, wrappers with `writenow`, Python ids -/
+
+/-- all writes of a call history (plain writes and the writes of `writenow` calls) are acknowledged -/
+def AllAckCalls (ks : List Call) : Prop := ∀ k ∈ ks, AckCall k
+
+/-- a plain call -/
+def plain (op : Op) : Call := { op := .plain op }
+
+/-- state after running a call history (Python ids, `writenow` wrappers) from a fresh connect to `d0`, every write
+    aligned to the rx padding `pad` and received by the device through its request dispatcher -/
+def afterCalls (pad : Nat) (d0 : Device) (flags : Nat) (ks : List Call) : Client × Device × List StepOut :=
+  runCalls pad (Client.init d0 flags) d0 ks
+
+/-- the device reacts to a padded request exactly as to the unpadded one: at every point of every history, for the
+    enable and the divider request the client would build there, and every padding, the device behind the dispatcher
+    (`devReact` on the aligned bytes) ends in the state `Config`'s device reaches from the frame (`devApplyEn/Div`).
+    C17 `aligned_same` ∘ dispatcher on a wire frame ∘ callback table ∘ C05 decoders. -/
+theorem padded_request_same (d0 : Device) (flags : Nat) (ops : List Op) (hd : WFDev d0) (pad : Nat) :
+    let r := after d0 flags ops
+    (∀ f, Requests.frameEnable (enRequest r.1) r.1.n = .ok f →
+      devReact r.2.1 (Pad.dataAlign pad f) = devApplyEn r.2.1 f) ∧
+    (∀ f, Requests.frameDiv (divRequest r.1) r.1.n = .ok f →
+      devReact r.2.1 (Pad.dataAlign pad f) = devApplyDiv r.2.1 f) := by
+  intro r
+  have hI : Inv r.1 r.2.1 :=
+    (run_induct Inv (fun _ => True) ops (fun _ _ op _ hP => ⟨step_inv hP op, trivial⟩) _ _
+      (init_inv d0 flags hd)).1
+  exact ⟨fun f hf => devReact_enRequest hI pad f hf _, fun f hf => devReact_divRequest hI pad f hf _⟩
+
+/-- rx padding is invisible: for every padding and every history (whatever the outcomes of the requests) the padded
+    machine — writes aligned, device behind its dispatcher — goes through exactly the client and device states of the
+    unpadded one, and writes the same frames, each aligned -/
+theorem padding_invisible (pad : Nat) (d0 : Device) (flags : Nat) (ops : List Op) (hd : WFDev d0) :
+    runP pad (Client.init d0 flags) d0 ops =
+      ((after d0 flags ops).1, (after d0 flags ops).2.1, (after d0 flags ops).2.2.map (padOut pad)) :=
+  runP_eq (init_inv d0 flags hd) pad ops
+
+/-- `write_syncs` for every rx padding -/
+theorem write_syncs_padded (pad : Nat) (d0 : Device) (flags : Nat) (ops : List Op) (hd : WFDev d0) (ha : AllAck ops) :
+    let r := runP pad (Client.init d0 flags) d0 (ops ++ [.write .ack .ack])
+    r.2.1.en = r.1.enNew ∧ r.1.enNow = r.1.enNew ∧ r.1.copyEn = r.1.enNew ∧
+    (Info.divSupported flags = true →
+      r.2.1.div = r.1.divNew ∧ r.1.divNow = r.1.divNew ∧ r.1.copyDiv = r.1.divNew) ∧
+    (Info.divSupported flags = false → r.2.1.div = d0.div) := by
+  intro r
+  have hr : r = _ := padding_invisible pad d0 flags (ops ++ [.write .ack .ack]) hd
+  rw [hr]
+  exact write_syncs d0 flags ops hd ha
+
+/-- "stream already running at connect time": a connect on a fresh handler in front of device `d0` — idle or left
+    streaming by a previous session — yields exactly the state the C07 histories start from: the client initialised
+    from `d0`, the device's channel configuration untouched, its stream stopped -/
+theorem connect_gives_init (d0 : Device) (started : Bool) (flags : Nat) :
+    let w := (Lifecycle.run (Lifecycle.World.fresh d0 started flags) [.connect]).1
+    w.cli = some (Client.init d0 flags) ∧ w.dev = d0 ∧ w.devStarted = false := by
+  intro w
+  exact ⟨rfl, rfl, rfl⟩
+
+/-- ids ≥ 0 mean in a call what they mean in `Config.Op` (so everything above is the special case of the call
+    theorems below with non-negative ids, no `writenow`, padding 0) -/
+theorem ids_nonneg_unchanged (c : Client) :
+    (∀ cs, (IOp.enable (cs.map Int.ofNat)).toOp c = .enable cs) ∧
+    (∀ cs, (IOp.disable (cs.map Int.ofNat)).toOp c = .disable cs) ∧
+    (∀ cs v, (IOp.divider (cs.map Int.ofNat) v).toOp c = .divider cs v) ∧
+    (∀ op, (IOp.plain op).toOp c = op) := toOp_nonneg c
+
+/-- Python indices: `-k` (1 ≤ k ≤ len) is position `len - k`; below `-len` nothing is in range -/
+theorem negative_id (len k : Nat) (h1 : 1 ≤ k) :
+    (k ≤ len → normId len (-(k : Int)) = len - k) ∧ (len < k → ¬ normId len (-(k : Int)) < len) :=
+  ⟨normId_neg len k h1, normId_out len k⟩
+
+/-- a call without `writenow` that is not a write — whatever ids it names, valid or not — and a `writenow` call whose
+    setter raises: nothing is written, the device is untouched (any state, any padding) -/
+theorem calls_silent (pad : Nat) (c : Client) (d : Device) (k : Call)
+    (hw : ∀ a b, k.op ≠ .plain (.write a b))
+    (hn : k.now = none ∨ (step c d (k.op.toOp c)).2.2.err ≠ none) :
+    (stepCall pad c d k).2.1 = d ∧ (stepCall pad c d k).2.2.sent = [] := by
+  have hop : ∀ a b, k.op.toOp c ≠ .write a b := by
+    intro a b h
+    cases hk : k.op with
+    | plain op => rw [hk] at h; exact hw a b (by rw [hk]; exact congrArg IOp.plain h)
+    | enable cs => rw [hk] at h; nomatch h
+    | disable cs => rw [hk] at h; nomatch h
+    | divider cs v => rw [hk] at h; nomatch h
+  have hs := stepP_setter pad c d _ hop
+  have hsil := setters_silent c d (k.op.toOp c) (by
+    cases h : k.op.toOp c with
+    | write a b => exact absurd h (hop a b)
+    | _ => rfl)
+  rcases hn with hn | hn
+  · rw [stepCall_plain pad c d k hn, hs]; exact hsil
+  · cases he : (step c d (k.op.toOp c)).2.2.err with
+    | none => exact absurd he hn
+    | some e => rw [stepCall_raise pad c d k e (by rw [hs]; exact he), hs]; exact hsil
+
+/-- at every point of an acknowledged call history (Python ids — negative ones included —, `writenow` calls, any
+    padding) the client's report equals the device's state -/
+theorem reported_matches_device_calls (pad : Nat) (d0 : Device) (flags : Nat) (ks : List Call) (hd : WFDev d0)
+    (ha : AllAckCalls ks) :
+    let r := afterCalls pad d0 flags ks
+    r.1.enNow = r.2.1.en ∧ r.1.copyEn = r.2.1.en ∧
+    (Info.divSupported flags = true → r.1.divNow = r.2.1.div ∧ r.1.copyDiv = r.2.1.div) := by
+  intro r
+  have hS := runCalls_ackState (init_ackState d0 flags hd) pad ks ha
+  have h1 := hS.dEn hS.sEn
+  have h2 := hS.dDiv hS.sDiv
+  exact ⟨h1.symm, hS.inv.cpEn.trans h1.symm, fun _ => ⟨h2.symm, hS.inv.cpDiv.trans h2.symm⟩⟩
+
+/-- `write_syncs` for call histories: once a write has returned, device = requested = reported -/
+theorem write_syncs_calls (pad : Nat) (d0 : Device) (flags : Nat) (ks : List Call) (hd : WFDev d0)
+    (ha : AllAckCalls ks) :
+    let r := afterCalls pad d0 flags (ks ++ [plain (.write .ack .ack)])
+    r.2.1.en = r.1.enNew ∧ r.1.enNow = r.1.enNew ∧ r.1.copyEn = r.1.enNew ∧
+    (Info.divSupported flags = true →
+      r.2.1.div = r.1.divNew ∧ r.1.divNow = r.1.divNew ∧ r.1.copyDiv = r.1.divNew) ∧
+    (Info.divSupported flags = false → r.2.1.div = d0.div) := by
+  intro r
+  have hS := runCalls_ackState (init_ackState d0 flags hd) pad ks ha
+  obtain ⟨s1, s2⟩ := runCalls_snoc pad (Client.init d0 flags) d0 ks (plain (.write .ack .ack))
+  have hw := writeP_ack_result hS pad
+  have hc : ∀ c d, stepCall pad c d (plain (.write .ack .ack)) = stepP pad c d (.write .ack .ack) :=
+    fun c d => stepCall_plain pad c d _ rfl
+  rw [hc] at s1 s2
+  show (runCalls _ _ _ _).2.1.en = (runCalls _ _ _ _).1.enNew ∧ (runCalls _ _ _ _).1.enNow = (runCalls _ _ _ _).1.enNew ∧
+    (runCalls _ _ _ _).1.copyEn = (runCalls _ _ _ _).1.enNew ∧
+    (_ → (runCalls _ _ _ _).2.1.div = (runCalls _ _ _ _).1.divNew ∧ (runCalls _ _ _ _).1.divNow = (runCalls _ _ _ _).1.divNew ∧
+      (runCalls _ _ _ _).1.copyDiv = (runCalls _ _ _ _).1.divNew) ∧ (_ → (runCalls _ _ _ _).2.1.div = d0.div)
+  rw [s1, s2]
+  exact ⟨hw.1, hw.2.1, hw.2.2.1, hw.2.2.2.1, hw.2.2.2.2.1⟩
+
+/-- a wrapper called with `writenow=True` (acknowledged) whose setter does not raise IS a write: when it has
+    returned, device = requested = reported, and it did not raise -/
+theorem writenow_syncs (pad : Nat) (d0 : Device) (flags : Nat) (ks : List Call) (op : IOp) (hd : WFDev d0)
+    (ha : AllAckCalls ks) (hw : ∀ a b, op ≠ .plain (.write a b))
+    (hok : let s := afterCalls pad d0 flags ks; (step s.1 s.2.1 (op.toOp s.1)).2.2.err = none) :
+    let r := afterCalls pad d0 flags (ks ++ [{ op := op, now := some (.ack, .ack) }])
+    r.2.1.en = r.1.enNew ∧ r.1.enNow = r.1.enNew ∧ r.1.copyEn = r.1.enNew ∧
+    (Info.divSupported flags = true →
+      r.2.1.div = r.1.divNew ∧ r.1.divNow = r.1.divNew ∧ r.1.copyDiv = r.1.divNew) ∧
+    (Info.divSupported flags = false → r.2.1.div = d0.div) := by
+  intro r
+  have hS := runCalls_ackState (init_ackState d0 flags hd) pad ks ha
+  obtain ⟨s1, s2⟩ := runCalls_snoc pad (Client.init d0 flags) d0 ks { op := op, now := some (.ack, .ack) }
+  have hres := writenow_result hS pad op hw hok
+  show (runCalls _ _ _ _).2.1.en = (runCalls _ _ _ _).1.enNew ∧ (runCalls _ _ _ _).1.enNow = (runCalls _ _ _ _).1.enNew ∧
+    (runCalls _ _ _ _).1.copyEn = (runCalls _ _ _ _).1.enNew ∧
+    (_ → (runCalls _ _ _ _).2.1.div = (runCalls _ _ _ _).1.divNew ∧ (runCalls _ _ _ _).1.divNow = (runCalls _ _ _ _).1.divNew ∧
+      (runCalls _ _ _ _).1.copyDiv = (runCalls _ _ _ _).1.divNew) ∧ (_ → (runCalls _ _ _ _).2.1.div = d0.div)
+  rw [s1, s2]
+  exact ⟨hres.1, hres.2.1, hres.2.2.1, hres.2.2.2.1, hres.2.2.2.2.1⟩
+
+/-- writing again without new requests changes nothing — for call histories, every padding -/
+theorem write_idempotent_calls (pad : Nat) (d0 : Device) (flags : Nat) (ks : List Call) (hd : WFDev d0)
+    (ha : AllAckCalls ks) :
+    let r1 := afterCalls pad d0 flags (ks ++ [plain (.write .ack .ack)])
+    let r2 := afterCalls pad d0 flags ((ks ++ [plain (.write .ack .ack)]) ++ [plain (.write .ack .ack)])
+    r2.2.1 = r1.2.1 ∧ r2.1 = r1.1 := by
+  intro r1 r2
+  have hS := runCalls_ackState (init_ackState d0 flags hd) pad ks ha
+  obtain ⟨a1, a2⟩ := runCalls_snoc pad (Client.init d0 flags) d0 ks (plain (.write .ack .ack))
+  obtain ⟨b1, b2⟩ := runCalls_snoc pad (Client.init d0 flags) d0 (ks ++ [plain (.write .ack .ack)])
+    (plain (.write .ack .ack))
+  have hi := writeP_idem hS pad
+  show (runCalls _ _ _ _).2.1 = (runCalls _ _ _ _).2.1 ∧ (runCalls _ _ _ _).1 = (runCalls _ _ _ _).1
+  rw [b1, b2, a1, a2]
+  exact hi
+
+/-- on a device that does not advertise divider support no divider request is ever written — call histories, every
+    padding, whatever the outcomes -/
+theorem no_div_without_support_calls (pad : Nat) (d0 : Device) (flags : Nat) (ks : List Call) (hd : WFDev d0)
+    (hs : Info.divSupported flags = false) :
+    ∀ o ∈ (afterCalls pad d0 flags ks).2.2, ∀ f ∈ o.sent, f.getD 3 0 ≠ 7 := by
+  intro o ho f hf
+  rw [runCalls_sent (init_inv d0 flags hd) pad ks hs o ho f hf]
+  decide
+
+/-- non-vacuity of the additions: padding 16, a device left streaming is irrelevant to the start state, a negative id
+    and `True` as ids, a `writenow` call, a raising `writenow` call that writes nothing -/
+example : (afterCalls 16 ⟨[false, true, false], [0, 0, 200]⟩ 3
+    [{ op := .enable [-1] }, { op := .divider [1, -3] 5, now := some (.ack, .ack) }, { op := .enable [3], now := some (.ack, .ack) }]).2.1
+      = ⟨[false, true, true], [5, 5, 200]⟩ := by
+  decide +kernel
+
+example : ((afterCalls 16 ⟨[false, true, false], [0, 0, 200]⟩ 3
+    [{ op := .enable [-1] }, { op := .divider [1, -3] 5, now := some (.ack, .ack) }, { op := .enable [3], now := some (.ack, .ack) }]).2.2.map
+      fun o => (o.sent.map List.length, o.err)) = [([], none), ([16, 16], none), ([], some .indexError)] := by
+  decide +kernel
+
+example : AllAckCalls [{ op := .enable [-1] }, { op := .divider [1, -3] 5, now := some (.ack, .ack) }, plain (.write .ack .ack)] := by
+  intro k hk
+  simp only [List.mem_cons, List.not_mem_nil, or_false] at hk
+  rcases hk with rfl | rfl | rfl <;> refine ⟨?_, ?_⟩ <;> intro a b h <;> cases h <;> exact ⟨rfl, rfl⟩
+
+example : WFDev ⟨[false, true, false], [0, 0, 200]⟩ := by simp [WFDev]
 
 end Nxs.C07
